@@ -12,6 +12,7 @@ import ClarabelProofs.Lemmas.SolverNSStaleFrame
 import ClarabelProofs.Lemmas.SolverNSQwUpdate
 import ClarabelProofs.Lemmas.SolverNSQwFrame
 import ClarabelProofs.Lemmas.SolverNSQwNew
+import ClarabelProofs.Lemmas.SolverNSNormTransparent
 
 namespace Clarabel.SolverNS
 open Clarabel Info Residuals
@@ -100,24 +101,52 @@ theorem solve_kktOkN {S : Solver α} {st : Settings α} {r : SolveResult α} (h 
   rw [← hU.map, ← nSpN_shape hsh]
   exact hk.fit
 
-/-- **the second of two `solve()` calls on one solver object** gives the observable result of the
-first: hypotheses are the structural invariant of the object before (`hI`) and after (`hI1`: the
-conclusion of the C04 theorem `solve_okOr`) the first call, `KktOk`, and (iii) — which is void when
-the composite has a nonsymmetric cone (`InitPointOk.of_nonsymmetric`). -/
-theorem solve_twice_obsN (hbeq : ((0 : α) == 0) = true) (st : Settings α) {KI : KktSolver α → Prop}
+/-- the object a `solve()` returned, WITH THE DATA AT ENTRY PUT BACK (`solve()` fills the two norm
+caches of the data and writes nothing else of it), is `Stale`-related to the object before the call,
+and its solution object has the same shape -/
+theorem stale_putBack {st : Settings α} {KI : KktSolver α → Prop}
     {d : ProblemData α} {specs : List Kkt.ConeSpec} {S : Solver α} {r1 : SolveResult α}
-    (h1 : S.solve st = .ok r1) (hI : SolverInv KI d specs S) (hI1 : SolverInv KI d specs r1.S)
-    (hk : KktOk S.st) (hinit : InitPointOk (resetInfo S.st) st) :
-    ∃ r2, r1.S.solve st = .ok r2 ∧ SolveObs r1 r2 := by
+    (h1 : S.solve st = .ok r1) (hI : SolverInv KI d specs S)
+    (hI1 : SolverInv KI r1.S.st.data specs r1.S) (hk : KktOk S.st) :
+    Stale (BwN S.st.kktsystem.kktsolver.map.sparse_maps.size st.lin) S.st (r1.S.withData S.st.data).st
+      ∧ SolShape ((Solver.presolveMap S.st.data).map (fun m => m.keep.size)) S.solution
+          (r1.S.withData S.st.data).solution := by
   obtain ⟨hk1, hB⟩ := solve_kktOkN h1 hI.st.shapes.cones hk
   obtain ⟨hsh, _⟩ := solve_conesShape h1 hI.st.shapes.cones
-  have hd : S.st.data = r1.S.st.data := hI.st.data.trans hI1.st.data.symm
-  have hst : Stale (BwN S.st.kktsystem.kktsolver.map.sparse_maps.size st.lin) S.st r1.S.st :=
-    Stale.of_shapes hI.st.shapes hI1.st.shapes hd hsh hB
-  have hsol : SolShape ((Solver.presolveMap S.st.data).map (fun m => m.keep.size)) S.solution r1.S.solution := by
-    rw [hI.st.data]
-    exact solShape_of_sized hI.solution hI1.solution
-  have hrel := solve_rel hbeq st (kktSimN _ st.lin) hst hk.fit hsol (Or.inl hinit)
+  obtain ⟨nq, nb, _, _, e⟩ := solve_data_eq h1
+  -- resetting the two caches of the returned data gives the data at entry back
+  have eback : ({ r1.S.st.data with normq := S.st.data.normq, normb := S.st.data.normb } : ProblemData α)
+      = S.st.data := by
+    rw [e]
+  have hT : Shapes KI (r1.S.withData S.st.data).st := by
+    have := hI1.st.shapes.withNorms S.st.data.normq S.st.data.normb
+    rw [eback] at this
+    exact this
+  have hsolT : SolutionSized S.st.data r1.S.solution := by
+    have := hI1.solution.withNorms S.st.data.normq S.st.data.normb
+    rw [eback] at this
+    exact this
+  refine ⟨Stale.of_shapes hI.st.shapes hT rfl hsh hB, ?_⟩
+  have hsolS : SolutionSized S.st.data S.solution := by rw [hI.st.data]; exact hI.solution
+  exact solShape_of_sized hsolS hsolT
+
+/-- **the second of two `solve()` calls on one solver object** gives the observable result of the
+first: hypotheses are the structural invariant of the object before (`hI`) and after (`hI1`: the
+conclusion of the C04 theorem `solve_okOr`, anchored at the data of the returned object) the first
+call, `KktOk`, and (iii) — which is void when the composite has a nonsymmetric cone
+(`InitPointOk.of_nonsymmetric`).  The second call runs on the data with the two norm caches the
+first call filled; they answer `get_normq` / `get_normb` as the caches at entry did
+(`solve_putBack`). -/
+theorem solve_twice_obsN (hbeq : ((0 : α) == 0) = true) (st : Settings α) {KI : KktSolver α → Prop}
+    {d : ProblemData α} {specs : List Kkt.ConeSpec} {S : Solver α} {r1 : SolveResult α}
+    (h1 : S.solve st = .ok r1) (hI : SolverInv KI d specs S)
+    (hI1 : SolverInv KI r1.S.st.data specs r1.S)
+    (hk : KktOk S.st) (hinit : InitPointOk (resetInfo S.st) st) :
+    ∃ r2, r1.S.solve st = .ok r2 ∧ SolveObs r1 r2 := by
+  obtain ⟨hst, hsol⟩ := stale_putBack h1 hI hI1 hk
+  have hrel := solve_rel hbeq st (kktSimN _ st.lin) (S' := r1.S.withData S.st.data) hst hk.fit hsol
+    (Or.inl hinit)
+  rw [← solve_putBack h1 st] at hrel
   exact hrel.ok_left h1
 
 end
